@@ -195,6 +195,18 @@ CHECKS = {
         "substitutes gives exactly the default result; supplying the substitutes does not change acceptance. "
         "Outside: several reals per label, other quantity libraries.",
    ref='5 (C18)', technique='symbolic execution (symx) of parser/decoder with substitute classes on symbolic real lexemes; z3'),
+ 'C19': dict(
+   text="Differential bounded symbolic execution: pvl.new.loads(t) against pvl.loads(t) on the same SYMBOLIC text t "
+        "for the C03 spelling templates of the default loader (based integers in both sign positions, decimal "
+        "numbers, quoted strings with symbolic content over alphabet 'omni', unquoted strings, units, all contexts) "
+        "and the block templates with every keyword letter case: both succeed, the (name, value) item sequences are "
+        "equal at every level, the classes are PVLModuleNew/PVLGroupNew/PVLObjectNew, and pvl.new.dumps(new) equals "
+        "pvl.dumps(old) as strings for the default encoder and the PVL and PDS3 encoders (quick; all four thorough). "
+        "The third-party multidict (pure-Python implementation) executes concretely because names are concrete. "
+        "Outside: ill-formed or repaired text (the statement quantifies over well-formed text; with multidict 6.8 "
+        "the two families diverge on repaired labels - an observation, not a violation), exponent-form reals in the "
+        "dumps comparison.",
+   ref='5 (C19)', technique='differential symbolic execution (symx) of pvl.new vs pvl loaders/dumpers on templates with symbolic parts; z3'),
 }
 NA_REASON = "check not built yet (construction in progress, see DESIGN.md section 8)"
 
